@@ -92,6 +92,11 @@ reset_function_registry = ResetFunctionRegistry()
 """Reset function registry"""
 
 
+def _sorted_colors(colors: Set[Color]) -> List[Color]:
+    """colors in a reproducible order (independent of hash randomization)"""
+    return sorted(colors, key=lambda color: color.value)
+
+
 @reset_function_registry.register
 def empty(
     shape: Shape,
@@ -484,7 +489,10 @@ def memory(
         grid, range(2, shape.height - 2), shape.width // 2, Floor
     )
 
-    color_good, color_bad = choices(rng, list(colors), size=2, replace=False)
+    # NOTE: sorted, because set iteration order depends on hash randomization
+    color_good, color_bad = choices(
+        rng, _sorted_colors(colors), size=2, replace=False
+    )
     x_exit_good, x_exit_bad = choices(
         rng, [1, shape.width - 2], size=2, replace=False
     )
@@ -579,7 +587,10 @@ def memory_rooms(
     agent_orientation = choice(rng, list(Orientation))
     agent = Agent(agent_position, agent_orientation)
 
-    sample_colors = choices(rng, list(colors), size=num_exits, replace=False)
+    # NOTE: sorted, because set iteration order depends on hash randomization
+    sample_colors = choices(
+        rng, _sorted_colors(colors), size=num_exits, replace=False
+    )
 
     good_color = sample_colors[0]
     beacon_positions = positions[1 : 1 + num_beacons]
